@@ -456,6 +456,9 @@ impl<'a> Machine<'a> {
                     return self.err(6, path);
                 }
                 let rty = if both_int { Ty::Int } else { Ty::Long };
+                if op != BinOp::Mod {
+                    self.feat(if both_int { "and-or-16-bit" } else if x.ty == Ty::Int { "and-or-32-bit-integer-on-the-left" } else { "and-or-32-bit" });
+                }
                 match op {
                     BinOp::Mod => {
                         if yb == 0 {
@@ -622,6 +625,12 @@ impl<'a> Machine<'a> {
         }
         if self.call_depth >= 1 {
             self.feat("nested-call");
+        }
+        if self.frames.iter().any(|f| f.proc_ == Some(p)) {
+            self.feat("recursive-activation");
+        }
+        if pr.ret == Some(Ty::Str) {
+            self.feat("string-function-call");
         }
         self.frames.push(Frame { proc_: Some(p), cells });
         self.call_sites.insert(0, path.to_string());
@@ -890,12 +899,15 @@ impl<'a> Machine<'a> {
             }
             Stmt::IfLine { cond, then_, else_ } => {
                 self.feat("if-line");
+                if then_.len() > 1 || else_.as_ref().map(|e| e.len() > 1).unwrap_or(false) {
+                    self.feat("if-line-several-statements");
+                }
                 if self.truthy(cond, path)? {
                     self.feat("branch-taken");
-                    self.exec(then_, &format!("{}/then/0", path))
+                    self.run_block(then_, path, "then")
                 } else if let Some(e) = else_ {
                     self.feat("branch-taken");
-                    self.exec(e, &format!("{}/else/0", path))
+                    self.run_block(e, path, "else")
                 } else {
                     Ok(())
                 }
@@ -920,6 +932,9 @@ impl<'a> Machine<'a> {
             }
             Stmt::For { var, from, to, step, body, .. } => {
                 self.feat("for");
+                if self.frames.len() > 1 && self.var_info(var.var).shared {
+                    self.feat("for-shared-counter-inside-subprogram");
+                }
                 let vty = var.ety();
                 let f = self.eval(from, path)?;
                 self.store(var, f, path)?;
@@ -1157,7 +1172,11 @@ impl<'a> Machine<'a> {
                 }
                 let n: usize = d.bounds.iter().map(|(lo, hi)| (hi - lo + 1) as usize).product();
                 let dv = default_val(&d.sty, self.prog);
-                if matches!(self.frames[fi].cells[ci], Cell::Unset) {
+                if d.redim > 0 {
+                    // REDIM: new bounds, every element starts again from the default of the element type
+                    self.feat(if matches!(self.frames[fi].cells[ci], Cell::Unset) { "redim-first" } else if d.redim == 2 { "redim-again-short-form" } else { "redim-again" });
+                    self.frames[fi].cells[ci] = Cell::Array { bounds: d.bounds.clone(), elems: vec![dv; n] };
+                } else if matches!(self.frames[fi].cells[ci], Cell::Unset) {
                     self.frames[fi].cells[ci] = Cell::Array { bounds: d.bounds.clone(), elems: vec![dv; n] };
                 }
                 Ok(())
